@@ -10,7 +10,7 @@ import bpexport
 import facto_ast as fa
 import harness as H
 
-EXTRA = "Valid.CheckC01"
+EXTRA = "Valid.CheckC01 Facto.IO"
 BOUNDARY = [0, 1, -1, 2, -2, 3, 5, 7, -7, 2147483647, -2147483648, 65536, -65536, 46341, 1000]
 
 
@@ -46,7 +46,7 @@ def find_entity(bpj, proto, x, y):
     return found
 
 
-def case_for(cid, decls, bpj, ideal=None, entities=None):
+def case_for(cid, decls, bpj, ideal=None, entities=None, c20=False):
     """returns (defs text, expr text, meta) or raises bpexport.Unsupported.
     ideal: harvested logical edges -> check the idealised private-network circuit instead"""
     names = [d[1] for d in decls]
@@ -100,8 +100,13 @@ def case_for(cid, decls, bpj, ideal=None, entities=None):
         + f"Definition rs_{cid} : list ent_req := [{'; '.join(rs)}].\n"
     )
     expr = f"ok (check_prog bp_{cid} {n + 2}%nat ds_{cid} qs_{cid} rs_{cid})"
+    if c20:
+        anch = [names.index(v) for v, _, _ in ex.anchors() if v in names]
+        meta_c20 = f"check_c20 ds_{cid} [{'; '.join(str(a) + '%nat' for a in anch)}]"
+    else:
+        meta_c20 = None
     meta = {"outputs": outs, "exposed": sorted(exposed), "entities": n, "n_inputs": len(input_vars),
-            "signals": dict(ex.sig.ids), "entity_problems": ent_problems}
+            "signals": dict(ex.sig.ids), "entity_problems": ent_problems, "c20_expr": meta_c20}
     return defs, expr, meta
 
 
